@@ -53,6 +53,8 @@ def case_strategy(draw, tier="quick"):
             "group": group}
     if expr["filter"] is None:
         expr["filter2"] = None
+    if group == "col" and draw(st.integers(0, 4)) == 0:
+        expr["base"] = "all"     # no selection: groupby("g").agg() over every other column
     expr["agg"] = draw(st.sampled_from(GAGGS if group else AGGS))
     if expr["agg"] in ("var", "std"):
         expr["ddof"] = draw(st.sampled_from([1, 1, 0, 2, 3]))
@@ -73,7 +75,7 @@ def apply_expr(df, expr, streaming):
     """the same expression on a streamz DataFrame (streaming=True) or a pandas one"""
     f = prepare(df, expr)
     if expr["group"]:
-        sel = {"xy": ["x", "y"], "x": "x", "y": "y", "z": "z"}[expr["base"]]
+        sel = {"xy": ["x", "y"], "x": "x", "y": "y", "z": "z", "all": None}[expr["base"]]
         kw = {"ddof": expr["ddof"]} if "ddof" in expr else {}
         if expr.get("late_grouper"):
             wide = f[[c for c in ("x", "y", "z") if c in f.columns]] * 1
@@ -85,8 +87,8 @@ def apply_expr(df, expr, streaming):
             gb = f.groupby(f.g)
         else:
             gb = f.groupby(f.g % 2)
-        picked = gb[sel]
-        if expr.get("decoy_selection"):
+        picked = gb if sel is None else gb[sel]
+        if expr.get("decoy_selection") and sel is not None:
             # another selection taken from the same GroupBy object must not disturb this one
             other = "y" if sel == "x" else "x"
             _decoy = gb[other]   # noqa: F841
